@@ -40,6 +40,7 @@ const (
 	dCtx
 	dBom
 	dLoc
+	dMult
 )
 
 var preDims = []preDim{
@@ -64,6 +65,12 @@ var preDims = []preDim{
 	// root: the file is ./.gitattributes, operations run in the root; sub: the file is sub/.gitattributes, operations run in sub/;
 	// opsub: the file is ./.gitattributes, operations run in sub/ on a well-formed sub/.gitattributes
 	{"loc", []string{"root", "sub", "opsub"}},
+	// multiplicity: how often the file assigns attributes to the pattern P.  once: the generated line only; adj2: the generated line
+	// twice, adjacent; sep2: twice with one other line in between; three: three times (two adjacent, the third after one other line
+	// when there is one); spell2: the generated line followed by the same assignment with the pattern in the OTHER spelling (own <->
+	// C-quoted); lfsnon: the generated line followed by a second line `P lockable` (same pattern, no filter); nonlfs: `P lockable`
+	// first, then the generated line.  (Git decides attribute by attribute, the LAST line that mentions the attribute wins.)
+	{"mult", []string{"once", "adj2", "sep2", "three", "spell2", "lfsnon", "nonlfs"}},
 }
 
 var preAttrs = map[string]string{
@@ -99,7 +106,11 @@ func preVal(v []int, d int) string { return preDims[d].Vals[v[d]] }
 
 func preValid(v []int) bool {
 	// "no newline character in the whole file" is only possible for a one-line file
-	if preVal(v, dTerm) == "single" && (v[dCtx] != 0 || preVal(v, dAttrs) == "macro") {
+	if preVal(v, dTerm) == "single" && (v[dCtx] != 0 || preVal(v, dAttrs) == "macro" || v[dMult] != 0) {
+		return false
+	}
+	// "twice, separated by another line" needs another line
+	if preVal(v, dMult) == "sep2" && preVal(v, dCtx) == "alone" {
 		return false
 	}
 	return true
@@ -145,9 +156,12 @@ func prePattern(v []int) string {
 }
 
 // preLine is the generated line.
-func preLine(v []int) string {
+func preLine(v []int) string { return preLineAs(v, preVal(v, dSpell), preAttrs[preVal(v, dAttrs)]) }
+
+// preLineAs is the generated line with the pattern in the given spelling and the given attribute list (same blanks).
+func preLineAs(v []int, spell, attrs string) string {
 	var pat string
-	switch preVal(v, dPat) + "/" + preVal(v, dSpell) {
+	switch preVal(v, dPat) + "/" + spell {
 	case "glob/own":
 		pat = `*.dat`
 	case "glob/quoted":
@@ -158,42 +172,101 @@ func preLine(v []int) string {
 		pat = `"a b.dat"`
 	}
 	ws := map[string]string{"none": "", "sp": " ", "tab": "\t", "sp3": "   ", "sptab": " \t"}
-	return ws[preVal(v, dLead)] + pat + ws[preVal(v, dSep)] + preAttrs[preVal(v, dAttrs)] + ws[preVal(v, dTrail)]
+	return ws[preVal(v, dLead)] + pat + ws[preVal(v, dSep)] + attrs + ws[preVal(v, dTrail)]
+}
+
+// preL is one line of a generated file; gen: the line assigns attributes to the pattern P (the generated line, its copies, its
+// other spelling, the `P lockable` line), i.e. it is not one of the OTHER lines whose meaning must survive.
+type preL struct {
+	s   string
+	gen bool
+}
+
+// preMultiply expands the generated line (the only gen line of lines) according to the multiplicity dimension.
+func preMultiply(v []int, lines []preL) []preL {
+	idx := -1
+	for i, l := range lines {
+		if l.gen {
+			idx = i
+		}
+	}
+	if idx < 0 {
+		return lines
+	}
+	ins := func(at int, l preL) {
+		lines = append(lines[:at], append([]preL{l}, lines[at:]...)...)
+	}
+	p := lines[idx]
+	other := "quoted"
+	if preVal(v, dSpell) == "quoted" {
+		other = "own"
+	}
+	// a further copy with exactly one other line between it and the generated line(s) starting at idx (n of them)
+	sep := func(n int) {
+		if idx+n < len(lines) {
+			ins(idx+n+1, p)
+		} else if idx > 0 {
+			ins(idx-1, p)
+		} else {
+			ins(idx+n, p) // no other line in the file: adjacent
+		}
+	}
+	switch preVal(v, dMult) {
+	case "adj2":
+		ins(idx+1, p)
+	case "sep2":
+		sep(1)
+	case "three":
+		ins(idx+1, p)
+		sep(2)
+	case "spell2":
+		ins(idx+1, preL{preLineAs(v, other, preAttrs[preVal(v, dAttrs)]), true})
+	case "lfsnon":
+		ins(idx+1, preL{preLineAs(v, preVal(v, dSpell), "lockable"), true})
+	case "nonlfs":
+		ins(idx, preL{preLineAs(v, preVal(v, dSpell), "lockable"), true})
+	}
+	return lines
 }
 
 // preBuild writes the two attribute files of a deviation vector (withLine=false: the same files without the generated line).
 func preBuild(v []int, withLine bool) (root string, hasRoot bool, sub string, hasSub bool) {
-	p := preLine(v)
+	p := preL{preLine(v), true}
+	o := func(l ...string) []preL {
+		var r []preL
+		for _, x := range l {
+			r = append(r, preL{x, false})
+		}
+		return r
+	}
 	macro := preVal(v, dAttrs) == "macro"
 	loc := preVal(v, dLoc)
-	var lines []string
+	var pl []preL
 	switch preVal(v, dCtx) {
 	case "mid":
-		lines = []string{preLineT, p, preLineR, preLineG}
+		pl = append(append(o(preLineT), p), o(preLineR, preLineG)...)
 	case "last":
-		lines = []string{preLineT, preLineR, preLineG, p}
+		pl = append(o(preLineT, preLineR, preLineG), p)
 	case "first":
-		lines = []string{p, preLineT, preLineR, preLineG}
+		pl = append([]preL{p}, o(preLineT, preLineR, preLineG)...)
 	case "alone":
-		lines = []string{p}
+		pl = []preL{p}
 	case "rich":
-		lines = []string{"# Git LFS and other attributes (was: *.old filter=lfs diff=lfs merge=lfs -text)", "", "[attr]mybin -diff -merge -text", preLineT, p,
-			"# " + strings.TrimSpace(p), "", preLineR, "*.png mybin"}
+		pl = append(append(o("# Git LFS and other attributes (was: *.old filter=lfs diff=lfs merge=lfs -text)", "", "[attr]mybin -diff -merge -text", preLineT), p),
+			o("# "+strings.TrimSpace(p.s), "", preLineR, "*.png mybin")...)
 	}
 	if preVal(v, dTerm) == "single" {
-		lines = []string{p}
+		pl = []preL{p}
 	}
+	pl = preMultiply(v, pl)
 	if macro && loc != "sub" {
-		lines = append([]string{preMacroLine}, lines...) // Git reads macro definitions only from the top-level file
+		pl = append(o(preMacroLine), pl...) // Git reads macro definitions only from the top-level file
 	}
-	if !withLine {
-		var l2 []string
-		for _, l := range lines {
-			if l != p {
-				l2 = append(l2, l)
-			}
+	var lines []string
+	for _, l := range pl {
+		if withLine || !l.gen {
+			lines = append(lines, l.s)
 		}
-		lines = l2
 	}
 	var content string
 	if len(lines) == 0 {
@@ -284,8 +357,9 @@ type preConfig struct {
 	D        int  // files with at most D deviations
 	ClosureD int  // ... of which those with at most ClosureD deviations are searched to closure
 	Depth    int  // ... and the others by every sequence of at most Depth operations
-	Reduced  bool // quick tier: the other pattern is only tracked/untracked (no lockable flips), and files with more than ClosureD
-	// deviations get operations on the other pattern only when all their deviations are file-level (term, ctx, bom, loc)
+	Reduced  bool // quick tier: the other pattern is only tracked/untracked (no lockable flips), files with more than ClosureD
+	// deviations get operations on the other pattern only when all their deviations are file-level (term, ctx, bom, loc), and a
+	// multiplicity deviation is combined only with a second deviation of the dimensions term, pat, ctx, bom, loc
 }
 
 var preFileLevel = map[int]bool{dTerm: true, dCtx: true, dBom: true, dLoc: true}
@@ -298,6 +372,18 @@ func newPreSpace(h *harness, pc preConfig) *preSpace {
 		otherKinds = []int{kTrack, kUntrack}
 	}
 	for _, v := range preVectors(D) {
+		if pc.Reduced && v[dMult] != 0 && preDevs(v) > closureD {
+			// quick tier: a multiplicity deviation is combined only with a second deviation of the dimensions term, pat, ctx, bom, loc
+			skip := false
+			for d, x := range v {
+				if x != 0 && d != dMult && !preFileLevel[d] && d != dPat {
+					skip = true
+				}
+			}
+			if skip {
+				continue
+			}
+		}
 		k := preCfgKey(v)
 		c := p.byKey[k]
 		if c == nil {
@@ -413,6 +499,15 @@ func (p *preSpace) minimalClass(c *bCtx, ii int, ops []int, clause string) strin
 				break
 			}
 		}
+		// a multiplicity that cannot be removed is replaced by the simplest one (the line twice, adjacent) when that still fails:
+		// three copies / separated copies / a second line with other attributes then do not name classes of their own
+		if !moved && cur[dMult] > 1 {
+			cand := append([]int{}, cur...)
+			cand[dMult] = 1
+			if preValid(cand) && p.fails(cand, pops, clause) {
+				cur, moved = cand, true
+			}
+		}
 	}
 	return preVecName(cur)
 }
@@ -437,6 +532,6 @@ func (p *preSpace) bounds() map[string]interface{} {
 		}
 	}
 	return map[string]interface{}{"max_deviations": p.D, "searched_to_closure_up_to_deviations": p.closureD, "sequence_length_for_files_with_more_deviations": p.depth,
-		"reduced_alphabet": map[bool]string{false: "no: all four operations on both patterns from every file", true: "yes (quick tier): the other pattern is only tracked/untracked; files with more than " + strconv.Itoa(p.closureD) + " deviations get operations on the other pattern only when all their deviations are file-level (term, ctx, bom, loc)"}[p.cfg.Reduced], "dimensions": dims, "initial_files": total, "initial_files_by_number_of_deviations": byDev,
+		"reduced_alphabet": map[bool]string{false: "no: all four operations on both patterns from every file", true: "yes (quick tier): the other pattern is only tracked/untracked; files with more than " + strconv.Itoa(p.closureD) + " deviations get operations on the other pattern only when all their deviations are file-level (term, ctx, bom, loc); a multiplicity deviation (mult) is combined only with a second deviation of the dimensions term, pat, ctx, bom, loc"}[p.cfg.Reduced], "dimensions": dims, "initial_files": total, "initial_files_by_number_of_deviations": byDev,
 		"configurations": per, "probe_paths": len(preProbes), "other_pattern": preOther}
 }
